@@ -23,11 +23,21 @@ Proof. intros path sg args H1 H2. apply signature_iff; assumption. Qed.
 Print Assumptions C13_signature.
 
 (* For every sequence of register_resolver / register_default_resolver /
-   register_subscription / validate() calls on a fresh schema, each validate()
-   answers what a fresh validator says about the state it runs in. *)
-Theorem C13_memo : forall s ops st r,
-  In (st, OpValidate, r) (trace (initial s) ops) -> r = fresh_verdict (m_schema st).
-Proof. intros s ops st r. apply memo_recomputed. apply initial_memo_ok. Qed.
+   register_subscription / schema.validate() / direct validate_schema(schema,
+   enable_resolver_validation=b) calls on a fresh schema: each schema.validate()
+   answers what a fresh full validator says about the state it runs in --
+   whatever validate_schema calls with either flag came before -- and each
+   direct call answers the fresh verdict for the rule set it asked for (all
+   rules, or all but the resolver signatures). *)
+Theorem C13_memo : forall s ops st,
+  (forall r, In (st, OpValidate, r) (trace (initial s) ops) -> r = fresh_verdict (m_schema st))
+  /\ (forall rv r, In (st, OpValidateSchema rv, r) (trace (initial s) ops) ->
+                   r = direct_verdict rv (m_schema st)).
+Proof.
+  intros s ops st. split.
+  - intros r. apply memo_recomputed. apply initial_memo_ok.
+  - intros rv r. apply direct_fresh.
+Qed.
 Print Assumptions C13_memo.
 
 (* The multiset of reported violations does not depend on the order in which
@@ -98,6 +108,17 @@ Example C13_example_signature :
   /\ binds [mkParam (S "root") PosOrKw false; mkParam (S "n") PosOrKw false; mkParam (S "info") PosOrKw false]
            [S "n"] = false.
 Proof. vm_compute. split; [discriminate|reflexivity]. Qed.
+
+(* a resolver that only the resolver rule rejects: a structural-only call
+   accepts, the schema.validate() after it still rejects *)
+Example C13_example_memo_structural :
+  run (initial ex_schema)
+      [OpRegisterResolver (S "A") (S "x") [mkParam (S "root") PosOrKw false] true;
+       OpValidateSchema false; OpValidate; OpValidateSchema true]
+  = [RDone; RAccepted;
+     RInvalid [mkErr LResMissing [S "A"; S "x"; S "n"]; mkErr LResPositional [S "A"; S "x"]];
+     RInvalid [mkErr LResMissing [S "A"; S "x"; S "n"]; mkErr LResPositional [S "A"; S "x"]]].
+Proof. vm_compute. reflexivity. Qed.
 
 Example C13_example_memo :
   run (initial ex_schema)
